@@ -3,6 +3,7 @@
    Only property theorems and their assumptions. *)
 From Coq Require Import List NArith Bool String.
 From Quill Require Import Queue.BQDefs Backend.BEDefs Backend.BEExec Backend.BEInv Backend.OrdSim Backend.BEExit TieC07.
+From Quill Require TieCtx.
 Import ListNotations.
 Local Open Scope N_scope.
 
@@ -21,6 +22,11 @@ Theorem C07_tie_exit_loop : QuillGen.SrcFacts.sk_be_exit = [
     "EXPR _cleanup_invalidated_loggers()"]%string.
 Proof. exact src_be_exit_skeleton. Qed.
 Print Assumptions C07_tie_exit_loop.
+
+(* T-src: an exited thread's context is removed only when its queue and its transit event buffer are both empty *)
+Theorem C07_tie_ctx_removal_guard : QuillGen.SrcFacts.be_ctx_removal_requires_empty_buffer = true.
+Proof. exact TieCtx.src_be_ctx_removal_requires_empty_buffer. Qed.
+Print Assumptions C07_tie_ctx_removal_guard.
 
 (* every configuration, every history before the stop (any interleaving of frontend and backend micro-steps,
    threads that have exited included), every pace of the clock while the drain loop spins: when the loop
